@@ -178,6 +178,24 @@ PROPS = {
                    'their stated preconditions. Not covered yet: compressed proofs, serde decoding, STARK entry points.',
         remainder=['verify_compressed / decompress (HashMap keyed by proof data)', 'byte decoders (util/serialization)', 'starky verifier'],
     ),
+    'C20': dict(
+        title='Conditional and cyclic recursion enforce exactly the selected verification',
+        design_ref='DESIGN.md section 4 / C20',
+        bounded=[('plonky2', ['c20_'])],
+        bounded_thorough=[('plonky2', ['t20_'])],
+        vspecs=['contracts/C20/cyclic_check.vspec'],
+        level_text='Unbounded deductive proof (Verus/Z3) of the third sentence: check_cyclic_proof_verifier_data returns Ok IF AND ONLY IF the trailing '
+                   '4 + 4*2^cap_height public inputs of the proof spell out exactly the given verifier data (circuit digest, then every cap entry, '
+                   'element by element), for every cap height <= 32, every number of leading public inputs and every value; too few public inputs is a '
+                   'clean Err; VerifierOnlyCircuitData::from_slice index layout proved in bounds. The in-circuit parts (conditional selection, cyclic '
+                   'connection of verifier data, dummy circuits) are covered by a bounded stand-in only.',
+        level_note='Trusted: Verus+Z3; derived PartialEq on MerkleCap/HashOut is element-wise (T11); core::array::from_fn unrolled for N = 4 (R11e); slice range '
+                   'indexing and HashOut::from_partial contracts (T4). conditionally_verify_proof, select_*, conditionally_verify_cyclic_proof, '
+                   'dummy_circuit/dummy_proof: CircuitBuilder code, bounded harness only (2 inner circuit shapes incl. lookups, both condition values, '
+                   '8-11 validity scenarios; thorough tier: a 3-step cyclic chain and 4 single-element alterations of the embedded verifier data).',
+        remainder=['select_proof_with_pis / select_verifier_data / conditionally_verify_proof (bounded harness only)',
+                   'conditionally_verify_cyclic_proof, add_verifier_data_public_inputs (bounded harness only, thorough tier)', 'dummy_circuit / dummy_proof (bounded harness only)'],
+    ),
 }
 
 NOT_APPLICABLE = {
